@@ -359,10 +359,18 @@ _PRISTINE = [None]
 _RESTARTS = {'n': 0, 'discarded': 0}
 
 
+_INTERP_LEAKS = []
+
+
 def _restart():
     _RESTARTS['n'] += 1
     if _PRISTINE[0] is not None and globalstate.restore(_PRISTINE[0]):
         _RESTARTS['discarded'] += 1
+    if _PRISTINE[0] is not None and globalstate.interp_config() != _PRISTINE[0].interp:
+        # a fresh process also has the interpreter's own configuration back (what an earlier call left behind
+        # must not decide the next one); what was found is remembered for the oracle of the running plan
+        _INTERP_LEAKS.append(globalstate.interp_config())
+        globalstate.restore_interp(_PRISTINE[0].interp)
 
 
 def _dec_kw(plan, task=None, ctx=None):
@@ -698,6 +706,9 @@ def _interp_moved(where, trace, ctr):
     after the calls must be what it was before them."""
     want = _PRISTINE[0].interp
     got = globalstate.interp_config()
+    if got == want and _INTERP_LEAKS:
+        got = _INTERP_LEAKS[0]          # already put back by a restart in between
+    del _INTERP_LEAKS[:]
     if got == want:
         return None
     globalstate.restore_interp(want)
@@ -857,6 +868,7 @@ def execute(plan):
     ctr = {}
     r0 = dict(_RESTARTS)
     _restart()                      # every run starts in a "fresh process"
+    del _INTERP_LEAKS[:]
     try:
         ctxs = [Ctx(d_, v_, style=s_) for d_, v_, s_ in _workloads(plan)]
         ctx = ctxs[0]
